@@ -52,6 +52,27 @@ def _type_candidates(schema):
     return t if isinstance(t, list) else [t]
 
 
+def _merge(parts):
+    """Approximate conjunction of schemas (good enough to aim values)."""
+    out = {}
+    for part in parts:
+        for k, v in part.items():
+            if k in ("properties", "patternProperties", "dependencies") and isinstance(v, dict):
+                out[k] = {**out.get(k, {}), **v}
+            elif k == "required" and isinstance(v, list):
+                out[k] = list(out.get(k, [])) + [x for x in v if x not in out.get(k, [])]
+            elif k == "type" and "type" in out and out["type"] != v:
+                a = out["type"] if isinstance(out["type"], list) else [out["type"]]
+                b = v if isinstance(v, list) else [v]
+                common = [t for t in a if t in b] or (["integer"] if {"integer", "number"} <= set(a + b) else b)
+                out[k] = common[0] if len(common) == 1 else common
+            elif k in ("anyOf", "oneOf", "allOf") and k in out:
+                out[k] = out[k] + v if k == "allOf" else out[k]
+            else:
+                out[k] = v
+    return out
+
+
 @st.composite
 def instance_of(draw, schema, depth=0):
     """Try to build a value satisfying ``schema`` (best effort)."""
@@ -66,12 +87,16 @@ def instance_of(draw, schema, depth=0):
         return copy.deepcopy(s["const"])
     if "enum" in s and draw(st.integers(0, 9)) < 8:
         return copy.deepcopy(draw(st.sampled_from(s["enum"])))
-    for kw in ("allOf", "anyOf", "oneOf"):
-        if kw in s and draw(st.integers(0, 2)) == 0:
-            branch = draw(st.sampled_from(s[kw]))
-            if isinstance(branch, dict):
-                merged = {**branch, **{k: v for k, v in s.items() if k not in ("anyOf", "oneOf", "allOf", "not")}}
-                return draw(instance_of(merged, depth + 1))
+    if any(k in s for k in ("allOf", "anyOf", "oneOf")) and draw(st.integers(0, 3)) > 0:
+        # satisfy the composition: all allOf branches, one anyOf/oneOf branch, merged with siblings
+        parts = [b for b in s.get("allOf", []) if isinstance(b, dict)]
+        for kw in ("anyOf", "oneOf"):
+            if kw in s:
+                branch = draw(st.sampled_from(s[kw]))
+                if isinstance(branch, dict):
+                    parts.append(branch)
+        parts.append({k: v for k, v in s.items() if k not in ("anyOf", "oneOf", "allOf", "not")})
+        return draw(instance_of(_merge(parts), depth + 1))
     ty = draw(st.sampled_from(_type_candidates(s)))
     if ty == "null":
         return None
